@@ -178,7 +178,7 @@ fn l_quad_inverse_ref() {
 
 // @ob name=c_word_conversions props=C08,C20 fn=cast6::to_u32s,cast6::to_u8s timeout=300
 #[kani::proof]
-#[kani::unwind(10)]
+#[kani::unwind(34)]
 fn c_word_conversions() {
     let b: [u8; 16] = kani::any();
     assert!(eq4(&to_u32s::<4>(&b[..]), &r::words_of(&b)));
